@@ -1075,6 +1075,8 @@ class Interp:
             return self.getattr_sobj(obj, name, node)
         if isinstance(obj, SuperProxy):
             return self.lookup_class_attr(obj.obj, name, after=obj.after, node=node)
+        if isinstance(obj, DictProxy):
+            return self.lib._dictproxy_attr(self, obj, name, node)
         if isinstance(obj, Sym):
             return self.lib.getattr(self, obj, name, node)
         if isinstance(obj, (list, dict, tuple, set)) and contains_sym(obj):
